@@ -1983,13 +1983,13 @@ class TensorDict(TensorDictBase):
         if dim is None:
             names = copy(self.names) if self._has_names() else None
             if names is not None:
-                batch_size, names = _zip_strict(
-                    *[
-                        (size, name)
-                        for size, name in _zip_strict(batch_size, names)
-                        if size != 1
-                    ]
-                )
+                kept = [
+                    (size, name)
+                    for size, name in _zip_strict(batch_size, names)
+                    if size != 1
+                ]
+                batch_size = [size for size, _ in kept]
+                names = [name for _, name in kept]
             else:
                 batch_size = [size for size in batch_size if size != 1]
             batch_size = torch.Size(batch_size)
@@ -1999,7 +1999,7 @@ class TensorDict(TensorDictBase):
             # we only want to squeeze dimensions lower than the batch dim, and view
             # is the perfect op for this
             def _squeeze(tensor):
-                return tensor.view(*batch_size, *tensor.shape[self.batch_dims :])
+                return tensor.view((*batch_size, *tensor.shape[self.batch_dims :]))
 
             return self._fast_apply(
                 _squeeze,
